@@ -299,15 +299,14 @@ func modf(t *rt.Thread, c *rt.GoCont) (rt.Cont, error) {
 		return nil, err
 	}
 	next := c.Next()
-	arg := c.Arg(0)
-	if _, ok := arg.TryInt(); ok {
-		t.Push1(next, arg)
+	n, x, tp := rt.ToNumber(c.Arg(0))
+	switch tp {
+	case rt.IsInt:
+		t.Push1(next, rt.IntValue(n))
 		t.Push1(next, rt.FloatValue(0))
 		return next, nil
-	}
-
-	x, ok := arg.TryFloat()
-	if !ok {
+	case rt.IsFloat:
+	default:
 		return nil, errors.New("#1 must be numeric")
 	}
 	var i, f float64
